@@ -192,6 +192,25 @@ Definition resolve st (p : option (nat * nat)) (n : nat) : option (option (nat *
       | None => None
       end
   end.
+(* a (T *data, size_t n) argument taken from a WRAPPER: slot j's data() + off — possibly the very wrapper the call
+   is made on (a.reset(a.data() + k, a.size() - k)), or a view over it.  The n elements are the ones the range
+   holds BEFORE the call.  None = caller broke the precondition (range outside the wrapper, or the wrapper does not designate a_len live cells) *)
+Definition resolve_wrap st (j off n : nat) : option (option (nat * nat) * list N) :=
+  match slot_arr st (slot_at st j) with
+  | None => None
+  | Some a =>
+      if off + n <=? a_len a then
+        match a_ptr a with
+        | None => Some (None, [])
+        | Some (b, o) =>
+            match nth_error (heap st) b with
+            | Some bu => if b_alive bu && (o + a_len a <=? length (b_cells bu))
+                         then Some (Some (b, o + off), firstn n (skipn (o + off) (b_cells bu))) else None
+            | None => None
+            end
+        end
+      else None
+  end.
 Definition whole st k : option (option (nat * nat) * list N) :=
   match src_buf st k with Some (b, bu) => Some (Some (b, 0), b_cells bu) | None => None end.
 
@@ -214,7 +233,9 @@ Inductive op :=
 | MoveCtor (i j : nat)                 (* slot i := T(std::move(slot j)) *)
 | MoveAssign (i j : nat)               (* slot i = std::move(slot j) *)
 | Destroy (i : nat)
-| Write (i idx : nat) (v : N).         (* w[idx] = v *)
+| Write (i idx : nat) (v : N)          (* w[idx] = v *)
+| FromWrap (i : nat) (kd : kind) (j off n : nat)   (* slot i := T(w_j.data() + off, n) *)
+| ResetWrap (i j off n : nat).         (* w_i.reset(w_j.data() + off, n), j = i allowed (self-aliasing source) *)
 
 (* construct a T in the free slot i from (data, the n elements there) *)
 Definition build st i (kd : kind) (ptr : option (nat * nat)) (c : list N) : option state :=
@@ -451,6 +472,10 @@ Definition step (st : state) (o : op) : option state :=
       | s => Some (set_slot (drop st s) i SEmpty)
       end
   | Write i idx v => op_write st i idx v
+  | FromWrap i kd j off n =>
+      match resolve_wrap st j off n with Some (q, c) => build st i kd q c | None => None end
+  | ResetWrap i j off n =>
+      match resolve_wrap st j off n with Some (q, c) => assign_from st i false q c | None => None end
   end.
 
 (* an operation whose precondition fails is skipped (state unchanged) *)
